@@ -456,6 +456,26 @@ fn kf_c06_cfb_header_counts_do_not_size_allocations() {
 }
 
 #[test]
+fn kf_c06_cfb_reserved_sector_ids_are_not_sectors() {
+    // (a) the header's DIFAT array lists 0xFFFFFFFA (MAXREGSECT, reserved) as a FAT sector
+    let bytes = cfb_custom("Workbook", &workbook_stream(&[], &[]), |_| {}, |h| h[80..84].copy_from_slice(&0xFFFF_FFFAu32.to_le_bytes()));
+    reset_peak();
+    let _ = no_panic("DIFAT entry 0xFFFFFFFA", || Xls::new(Cursor::new(bytes)).is_ok());
+    let big = BIGGEST.load(Ordering::Relaxed);
+    assert!(big < 64 << 20, "a reserved id in the DIFAT array of a 6 KB file requested one allocation of {big} bytes");
+}
+
+#[test]
+fn kf_c06_cfb_chain_running_into_freesect() {
+    // (b) the directory chain runs into FREESECT (0xFFFFFFFF) instead of ENDOFCHAIN
+    let bytes = cfb_custom("Workbook", &workbook_stream(&[], &[]), |fat| fat[1] = FREE, |_| {});
+    reset_peak();
+    let _ = no_panic("directory chain ending in FREESECT", || Xls::new(Cursor::new(bytes)).is_ok());
+    let big = BIGGEST.load(Ordering::Relaxed);
+    assert!(big < 64 << 20, "a FREESECT link in the directory chain of a 6 KB file requested one allocation of {big} bytes");
+}
+
+#[test]
 fn kf_c06_xls_sst_count_does_not_size_allocation() {
     // SST record: cstTotal, cstUnique = 0x7FFFFFF0, no strings
     let mut sst = 0u32.to_le_bytes().to_vec();
